@@ -62,6 +62,17 @@ def make_case(seed, i, profile):
         if rng.random() < 0.5:
             p["errorTol"] = 1e-3       # a caller's (larger) numerical tolerance for "no work left"
         return spec, dict(p, maxTime=60)
+    if profile == "rerun":
+        # every case is observed on a USED object: half of them after a backward simulation with the due times
+        # of the tail tasks taken into account (helper tasks are added and removed again)
+        spec = gen.gen_spec(rng, "full")
+        params = gen.gen_params(rng, spec)
+        wu = params.get("warmup") or dict(rule=rng.randrange(9), autoFlag=False, maxTime=rng.choice([3, 40]), absence=[], edit_absence=False)
+        if rng.random() < 0.5:
+            wu.update(backward=True, due=True)
+        params["warmup"] = wu
+        params["initState"] = params["initLog"] = True
+        return spec, params
     if profile == "nested":
         spec = gen.gen_nested(rng)
         return spec, dict(gen.gen_params(rng, spec), maxTime=40)
